@@ -25,7 +25,13 @@ def gen(rng, tier):
         if kind == "forms":
             n, k = rng.randint(1, 4), rng.randint(2, 3)
             rows = rng.randint(1, 6)
-            base = {"kind": "forms", "n": n, "k": k, "fs": [rand_formula(rng, n, k) for _ in range(rows)],
+            fs = [rand_formula(rng, n, k) for _ in range(rows)]
+            if rng.random() < 0.3:
+                # "staircase" formulas: the first disjunct is the narrowest, a LATER one the widest (a selection must keep the width
+                # of every disjunct of the rows it keeps, not only of the first)
+                lit = lambda: (rng.randrange(n), rng.randrange(k))  # noqa: E731
+                fs = [[[lit()]] + [[lit() for _ in range(w)] for w in sorted(rng.sample([1, 2, 3], rng.randint(1, 2)))] for _ in range(rows)]
+            base = {"kind": "forms", "n": n, "k": k, "fs": fs,
                     "kinds": [rng.choice(["min", "conj", "full"]) for _ in range(rows)]}
             x = [rng.randrange(k) for _ in range(n)]
         elif kind == "default":
